@@ -259,6 +259,15 @@ static inline size_t vit_checked_index(size_t i, size_t n)
     } NAME;                                                                                   \
     typedef T NAME##_elem_t;                                                                  \
     static inline bool NAME##_elem_eq(T a, T b) { return T##_keyeq(a, b); }                   \
+    static inline bool NAME##_keyeq(NAME a, NAME b)                                           \
+    {                                                                                         \
+        if (a.n != b.n)                                                                       \
+            return 0;                                                                         \
+        for (size_t k = 0; k < VVEC_CAP; ++k)                                                 \
+            if (k < a.n && !T##_keyeq(a.d[k], b.d[k]))                                        \
+                return 0;                                                                     \
+        return 1;                                                                             \
+    }                                                                                         \
     static inline NAME NAME##_new(void)                                                       \
     {                                                                                         \
         NAME r;                                                                               \
@@ -381,6 +390,12 @@ static inline size_t vit_checked_index(size_t i, size_t n)
     typedef PAIR NAME##_elem_t;                                                               \
     static inline bool NAME##_elem_eq(PAIR a, PAIR b) { return PAIR##_keyeq(a, b); }          \
     typedef K NAME##_key_t;                                                                   \
+    static inline NAME NAME##_new(void)                                                       \
+    {                                                                                         \
+        NAME r;                                                                               \
+        r.n = 0;                                                                              \
+        return r;                                                                             \
+    }                                                                                         \
     static inline size_t NAME##_size(const NAME *m) { return m->n; }                         \
     static inline PAIR *NAME##_data(NAME *m) { return m->d; }                                \
     static inline size_t NAME##_find_pos(const NAME *m, K k)                                  \
@@ -414,6 +429,12 @@ static inline size_t vit_checked_index(size_t i, size_t n)
 #define HEAP_N 8
 #endif
 #define HEAP_FIELD(T, NAME) T NAME[HEAP_N];
+/* typed havoc (a bool stays 0/1, which a byte-wise havoc does not guarantee) */
+#define HAVOC_SCALAR_FIELD(F, T, A)                                                           \
+    for (unsigned k = 0; k < HEAP_N; ++k) {                                                   \
+        T nondet_field_##A(void);                                                             \
+        F[k] = nondet_field_##A();                                                            \
+    }
 /* exact containers carry no pointers: arbitrary length and content */
 #define HAVOC_CONTAINER_FIELD(F, T)                                                           \
     for (unsigned k = 0; k < HEAP_N; ++k) {                                                   \
